@@ -23,7 +23,7 @@ from lib import impl
 from lib.core import cN, cbytes, clist, copt, cpair, vL, vN, vset
 
 PROPERTY = "C18"
-GEN: list = []
+GEN = ["storagemap"]  # Gen/StorageMap.v: StorageMapping.__getitem__ + StorageInfo, regenerated every run
 RULE = (
     "indexes of 1-4 items (directory entries with nested listings sub/.., sub/deep/.., shared and empty "
     "contents, the same directory object under two keys; plain file entries) x storage maps of 1-3 prefixes "
@@ -45,7 +45,7 @@ ASSUMPTIONS = [
     "no two contents in play collide under md5; objects are genuine (corruption is C07's subject)",
 ]
 
-IMPORTS = "From Coq Require Import NArith List.\nFrom DvcData Require Import Model.Transfer Model.PushFetch."
+IMPORTS = "From Coq Require Import NArith List.\nFrom DvcData Require Import Model.Transfer Gen.StorageMap Model.PushFetch."
 
 # placements where a remote group would need objects from the cache of another prefix reproduce two recorded
 # findings (known_findings.json); they are generated as a separate stream
